@@ -154,12 +154,56 @@ def _field_count(shape):
     return parts
 
 
+def _native_clock(E, shape, which):
+    """Replay on the real clock: build the literal string from the model's field values."""
+    import re
+    vals = values_env(with_strings=True)
+    c = clock_mod.Clock(vals)
+    txt = shape
+    fv = {}
+    for k in range(4):
+        if (b'<%d>' % k) in shape:
+            try:
+                bad = E.bool('field%d_not_a_number' % k)
+                v = E.int('field%d' % k, -100000, 100000)
+            except KeyError:
+                bad, v = False, 0
+            fv[k] = None if bad else v
+            txt = txt.replace(b'<%d>' % k, b'x' if bad else b'%d' % v)
+    s = vals.new_string().from_str(txt)
+    r = E.call(c.time_ if which == 'time' else c.date_, iter([s]))
+    E.prove(not r.raised or r.is_error(BASICError, error.IFC), 'only Illegal function call may be raised (%r)' % txt)
+    if which == 'time':
+        comps = shape.replace(b'.', b':').split(b':')
+        ok = len(comps) in (1, 2, 3) and all(cc for cc in comps) and all(fv.get(k) is not None for k in range(len(comps)))
+        v = [fv[k] for k in range(len(comps))] + [0] * (3 - len(comps)) if ok else []
+        valid = ok and 0 <= v[0] <= 23 and 0 <= v[1] <= 59 and 0 <= v[2] <= 59
+        E.prove(r.raised != valid, 'accepted exactly when valid (%r)' % txt)
+        if valid and not r.raised:
+            got = [int(x) for x in bytes(c.time_fn_([]).to_str()).split(b':')]
+            d = (got[0] * 3600 + got[1] * 60 + got[2]) - (v[0] * 3600 + v[1] * 60 + v[2])
+            E.prove(0 <= d % 86400 <= 2, 'new time has the hour, minute and second that were set')
+    else:
+        comps = shape.replace(b'/', b'-').split(b'-')
+        ok = len(comps) == 3 and all(cc for cc in comps) and all(fv.get(k) is not None for k in range(3))
+        valid = False
+        if ok:
+            mm, dd, yy = fv[0], fv[1], fv[2]
+            year = 2000 + yy if yy <= 77 else (1900 + yy if yy <= 99 else yy)
+            year_ok = 0 <= yy <= 77 or 80 <= yy <= 99 or 1980 <= yy <= 2099
+            valid = bool(year_ok and 1 <= mm <= 12 and 1 <= dd <= int(_days_in_month(year, mm)))
+        E.prove(r.raised != valid, 'accepted exactly when valid (%r)' % txt)
+        if valid and not r.raised:
+            E.prove(bytes(c.date_fn_([]).to_str()) == b'%02d-%02d-%04d' % (mm, dd, year),
+                    'new date is the date that was set')
+
+
 def t_time(E, shape):
     vals = values_env(with_strings=True)
     c = object.__new__(clock_mod.Clock)
     c._values = vals
     if E.mode != 'symbolic':
-        raise Unsupported('symbolic-only task (native end-to-end check is the bounded task)')
+        return _native_clock(E, shape, 'time')
     fields = _install(E, negative_ok=True)
     try:
         old = FakeDelta([('old',)])
@@ -208,7 +252,7 @@ def t_date(E, shape):
     c = object.__new__(clock_mod.Clock)
     c._values = vals
     if E.mode != 'symbolic':
-        raise Unsupported('symbolic-only task')
+        return _native_clock(E, shape, 'date')
     fields = _install(E, negative_ok=False)
     try:
         old = FakeDelta([('old',)])
